@@ -258,6 +258,19 @@ def main(argv):
                 ent = dict(name=b["name"], cmd=cmd, bound=b["bound"], stands_in_for=b["stands_in_for"], rc=2, output="", stderr=str(e))
             bounded_results.append(ent)
 
+    # side conditions of extraction rules (syntactic, over the real source; reported separately, never counted as proved)
+    side_results = []
+    if not update:
+        for sc in checks[prop].get("side_conditions", []):
+            if sc == "loglint":
+                from . import loglint
+                try:
+                    st = loglint.selftest()
+                    lr = loglint.run()
+                    side_results.append(dict(name="R2_log_arguments_carry_no_secret", selftest_ok=st, **lr))
+                except Exception as e:
+                    side_results.append(dict(name="R2_log_arguments_carry_no_secret", selftest_ok=False, error=str(e), hits=[], invocations=0, files=0))
+
     undecided = []
     all_obl = []
     witness_violations = []
@@ -370,6 +383,19 @@ def main(argv):
             rc = 1
         elif ent["rc"] != 0:
             undecided.append("bounded check %s could not run: %s %s" % (ent["name"], ent["output"][-200:], ent["stderr"][-200:]))
+    for sr in side_results:
+        if sr.get("error") or not sr.get("selftest_ok") or not sr.get("invocations"):
+            undecided.append("side condition %s could not be evaluated (%s)" % (sr["name"], sr.get("error") or "self-test failed or nothing scanned"))
+            continue
+        for h in sr["hits"]:
+            rpath = os.path.join(VERIF, "replay_out", "%s_side_%s_%s_%d.json" % (prop, sr["name"], re.sub(r"[^A-Za-z0-9]+", "_", h["file"]), h["line"]))
+            with open(rpath, "w") as fh:
+                json.dump(dict(property=prop, obligation="side-condition:%s" % sr["name"], location="%s:%d" % (h["file"], h["line"]),
+                               statement=h["args"], reason=h["why"],
+                               note="rule R2 drops tracing macros from the verified text; that is only sound for C03 if no log statement carries secret material. "
+                                    "This statement mentions a value of a secret-bearing type; it is written to the application log file by sos_logs."), fh, indent=1)
+            out_lines.append("VIOLATION property=%s replay=%s obligation=side-condition:%s %s:%d no-failing-input-found" % (prop, rpath, sr["name"], h["file"], h["line"]))
+            rc = 1
     if rc == 0 and undecided:
         rc = 2
         for u in undecided:
@@ -415,11 +441,13 @@ def main(argv):
             bounded_checks=[dict(name=e["name"], bound=e["bound"], stands_in_for=e["stands_in_for"], cmd=e["cmd"],
                                  outcome=("no failing input within the bound" if e["rc"] == 0 else ("FAILING INPUT FOUND" if e["rc"] == 1 else "could not run")),
                                  note="bounded stand-in: not counted in obligations/discharged") for e in bounded_results],
+            side_conditions=[dict(name=sr["name"], scanned_invocations=sr.get("invocations"), files=sr.get("files"), hits=sr.get("hits"), selftest_ok=sr.get("selftest_ok"),
+                                  note="syntactic side condition of extraction rule R2 over every tracing macro of crates/*/src (see tools/sosv/loglint.py for the exact shapes recognised); not a proof, not counted in obligations/discharged") for sr in side_results],
             observations=cfgp.get("observations", []),
         ),
         assumptions=cfgp.get("assumptions", []) + ["every entry of coverage.trusted_base is an assumed contract"],
         wall_s=round(time.time() - t0, 2),
-        violations=len(violations) + len(witness_violations) + len([e for e in bounded_results if e["rc"] == 1]),
+        violations=len(violations) + len(witness_violations) + len([e for e in bounded_results if e["rc"] == 1]) + sum(len(sr.get("hits", [])) for sr in side_results),
     )
     evdir = os.path.join(VERIF, "evidence")
     if os.environ.get("SOSV_REPO", "/repo") != "/repo":
